@@ -165,8 +165,8 @@ def check_no_panic_on_symbol(ctx, F):
                     why = c20.try_bound(F, r, i, e0)
                     k = (e['callee'], (e.get('span') or '').split('-')[0])
                     sites[k] = sites.get(k, True) and bool(why)
-                elif e['kind'] == 'assert' and 'BoundsCheck' in str(e.get('msg')) and sym.contains(e['cond'], is_sym):
-                    c = e['cond']
+                elif e['kind'] == 'assert' and 'BoundsCheck' in str(e.get('msg')) and e['cond'][0] == 'bin' and sym.contains(e['cond'][2], is_sym):
+                    c = e['cond']      # the *index* (not merely the length of some derived slice) is computed from the symbol
                     d = dbmmod.DBM()
                     dbmmod.harvest(d, r.preds[:rules.preds_before(r, i)])
                     ok = c[0] == 'bin' and c[1] == 'Lt' and d.entails_le(c[2], c[3], strict=True)
